@@ -46,6 +46,8 @@ TRUSTED_BASE = [
     "(correspondence-checked through real PDF files)",
     "the harness' PDF/CMap/Type 1 header writers (tools/harness/pdfwriter.py + this file)",
     "exact rationals stand for Python floats (advance compared with relative tolerance 1e-9)",
+    "tools/harness/props/c06_refdata.json: reference copies of the Adobe Glyph List, the Annex D encoding table and "
+    "the core-14 AFM widths (snapshot of the pinned tree) - an edit of a data table is reported against them",
 ]
 ASSUMPTIONS = [
     "font dictionaries are of the modelled shape: Subtype Type1/MMType1/TrueType/Type3 (or absent/unknown -> Type1), "
@@ -1282,6 +1284,13 @@ def check_fonts(ctx: C.Ctx, fonts: List[Tuple[Dict[str, Any], List[str]]], chunk
             meta.append(("font", fs, got))
             lines.append("fontspec " + font_line(fs))
             meta.append(("fontspec", fs, None))
+        if len(lines) >= 800:
+            compare_fonts_with_driver(ctx, lines, meta)
+            lines, meta = [], []
+    compare_fonts_with_driver(ctx, lines, meta)
+
+
+def compare_fonts_with_driver(ctx: C.Ctx, lines: List[str], meta: List[Any]) -> None:
     if ctx.driver is not None and lines:
         outs = ctx.driver.ask(lines)
         for (op, fs, got), m_out in zip(meta, outs):
@@ -1320,7 +1329,7 @@ def run_fonts(ctx: C.Ctx) -> None:
                   "tu": None, "fc": None, "widths": None, "desc": None,
                   "fm": ["1/1000", "0", "0", "1/1000", "0", "0"] if sub == "Type3" else None}
             fonts.append((fs, ["font:plain"]))
-    for _ in range(ctx.n(900, 25000)):
+    for _ in range(ctx.n(900, 12000)):
         fonts.append(gen_font(rng))
     check_fonts(ctx, fonts)
 
@@ -1341,6 +1350,43 @@ def run_utf16(ctx: C.Ctx) -> None:
         for ln, a, b in zip(lines, mine, ctx.driver.ask(lines)):
             if a != b:
                 ctx.disagree("utf16", ln, a, b)
+
+
+def run_refdata(ctx: C.Ctx, only: Optional[Tuple[str, str]] = None) -> None:
+    """The three data tables of the implementation against the reference copies of the external documents they
+    transcribe (Adobe Glyph List 2.0, PDF Reference Annex D, Adobe core-14 AFM widths): tools/harness/props/c06_refdata.json."""
+    with open(os.path.join(os.path.dirname(os.path.abspath(__file__)), "c06_refdata.json")) as fp:
+        ref = json.load(fp)
+    d = data()
+
+    def bad(table, key, exp, got):
+        ctx.fail(C.Failure("font data table differs from the reference copy of the document it transcribes",
+                           {"op": "table", "table": table, "key": key}, exp, got, {"op": "table", "table": table}))
+
+    gl = {k: [ord(c) for c in v] for k, v in d["gl"].items()}
+    for k in sorted(set(gl) | set(ref["glyphlist"])):
+        if only and only != ("glyphlist", k):
+            continue
+        ctx.case(("ref", "glyphlist", k), True, branch="refdata:glyphlist")
+        if gl.get(k) != ref["glyphlist"].get(k):
+            bad("glyphlist", k, ref["glyphlist"].get(k), gl.get(k))
+    rows = {r[0] + "#%d" % i: list(r) for i, r in enumerate(d["enc"])}
+    rrows = {r[0] + "#%d" % i: list(r) for i, r in enumerate(ref["encoding"])}
+    for k in sorted(set(rows) | set(rrows)):
+        if only and only != ("encoding", k):
+            continue
+        ctx.case(("ref", "encoding", k), True, branch="refdata:encoding")
+        if rows.get(k) != rrows.get(k):
+            bad("encoding", k, rrows.get(k), rows.get(k))
+    for f in sorted(set(d["fm"]) | set(ref["metrics"])):
+        a = {("%x" % ord(c)): w for c, w in d["fm"].get(f, {}).items()}
+        b = ref["metrics"].get(f, {})
+        for k in sorted(set(a) | set(b)):
+            if only and only != ("metrics", f + "/" + k):
+                continue
+            ctx.case(("ref", "metrics", f, k), True, branch="refdata:metrics")
+            if a.get(k) != b.get(k):
+                bad("metrics", f + "/" + k, b.get(k), a.get(k))
 
 
 def run_tables(ctx: C.Ctx) -> None:
@@ -1388,10 +1434,13 @@ def replay(ctx: C.Ctx, doc, from_corpus: bool = False) -> None:
         check_encodings(ctx, [(inp["base"], diff_from_json(inp["differences"]), [label])])
     elif op == "font":
         check_fonts(ctx, [(inp["font"], [label])])
+    elif op == "table":
+        run_refdata(ctx, (inp["table"], inp["key"]))
 
 
 def run(ctx: C.Ctx) -> None:
     run_corpus(ctx)
+    run_refdata(ctx)
     run_tables(ctx)
     run_utf16(ctx)
     run_names(ctx)
